@@ -166,6 +166,16 @@ func gen38(t *rapid.T, env *ev.Env) Case {
 		}
 
 		c.Steps = append(c.Steps, Step{Op: &op})
+		// a plain read of the key right after half of the deletes: in a versioning-enabled bucket its current
+		// version is then a delete marker, whose error (kind, marker version id) has its own translation
+		// (seeded defect S-C38-2); after an unversioned delete it is the plain NoSuchKey path
+		if (op.Kind == prog.OpDelete || op.Kind == prog.OpDeleteObjects) && rapid.Bool().Draw(t, "readAfterDelete") {
+			rd := prog.Op{Kind: rapid.SampledFrom([]string{prog.OpHead, prog.OpGet}).Draw(t, "radKind"), B: op.B, K: op.K}
+			if op.Kind == prog.OpDeleteObjects && len(op.Entries) > 0 {
+				rd.K = op.Entries[0].K
+			}
+			c.Steps = append(c.Steps, Step{Op: &rd})
+		}
 		if i < 2 || rapid.IntRange(0, 3).Draw(t, "query?") != 0 {
 			continue
 		}
